@@ -362,6 +362,14 @@ func genChain(r *rand.Rand) []def {
 			}
 			d.attrs = append(d.attrs, genAttr(r, name))
 		}
+		if d.parent >= 0 && r.Intn(25) == 0 {
+			// an attribute (or constant) called like an inherited function: OVERRIDE_MEMBER_MISMATCH
+			if fs := mkSpec(defs).funcs[d.parent]; len(fs) > 0 {
+				a := genAttr(r, fs[r.Intn(len(fs))].name)
+				a.override = r.Intn(2) == 0
+				d.attrs = append(d.attrs, a)
+			}
+		}
 		if d.parent >= 0 && r.Intn(4) == 0 {
 			// override an inherited attribute: same name, `override => true`, mostly the same or a narrower type,
 			// often only to give it a default
@@ -462,7 +470,27 @@ func genChain(r *rand.Rand) []def {
 				}
 			}
 			rets := []*ty{tInt, tStr, tAny, {k: "opt", elt: tInt}, {k: "float"}}
-			for _, name := range []string{"fx", "fy", "fz"} {
+			names := []string{"fx", "fy", "fz"}
+			if r.Intn(8) == 0 {
+				// a name clash: a function called like an attribute or constant of the chain (OVERRIDE_MEMBER_MISMATCH, or
+				// MEMBER_NAME_CONFLICT for an own `attributes` key; side by side with an own constant it is accepted)
+				var cand []string
+				for _, a := range d.attrs {
+					cand = append(cand, a.name)
+				}
+				for _, a := range d.consts {
+					cand = append(cand, a.name)
+				}
+				if d.parent >= 0 {
+					for _, a := range mkSpec(defs).all[d.parent] {
+						cand = append(cand, a.name)
+					}
+				}
+				if len(cand) > 0 {
+					names = append(names, cand[r.Intn(len(cand))])
+				}
+			}
+			for _, name := range names {
 				if r.Intn(2) == 0 {
 					continue
 				}
@@ -509,6 +537,21 @@ func genChain(r *rand.Rand) []def {
 				}
 			}
 		}
+		// (the universe: equality / serialization never name a member function)
+		isFn := map[string]bool{}
+		for _, f := range s.funcs[i] {
+			isFn[f.name] = true
+		}
+		noFn := func(ns []string) []string {
+			var out []string
+			for _, n := range ns {
+				if !isFn[n] {
+					out = append(out, n)
+				}
+			}
+			return out
+		}
+		own, eligible, req, opt = noFn(own), noFn(eligible), noFn(req), noFn(opt)
 		dd := &defs[i]
 		switch q := r.Intn(100); {
 		case q < 45:
@@ -526,7 +569,7 @@ func genChain(r *rand.Rand) []def {
 			for _, a := range s.all[i] {
 				allNames = append(allNames, a.name)
 			}
-			allNames = append(allNames, "zz")
+			allNames = append(noFn(allNames), "zz")
 			dd.eqKind = "l"
 			for k := r.Intn(3); k >= 0; k-- {
 				dd.eq = append(dd.eq, allNames[r.Intn(len(allNames))])
@@ -550,7 +593,7 @@ func genChain(r *rand.Rand) []def {
 			for _, a := range s.all[i] {
 				allNames = append(allNames, a.name)
 			}
-			allNames = append(allNames, "zz")
+			allNames = append(noFn(allNames), "zz")
 			dd.hasSer = true
 			for k := r.Intn(4); k > 0; k-- {
 				dd.ser = append(dd.ser, allNames[r.Intn(len(allNames))]) // repeats included
